@@ -59,10 +59,15 @@ package texttable
 //@ -- cellsChains(cells): every cell's property chain is well-formed
 //@ pred cellsChains(cells []tabular.Cell) = forall i int :: {cells[i]} 0 <= i && i < len(cells) ==> chainOK(heap[tabular.valueProperty.chain], heap[tabular.valueProperty.key], heap[tabular.valueProperty.val], cells[i].properties)
 
+//@ -- witness of the tallest cell of the row being laid out
+//@ ghost var ttLineWit Int
+
 //@ func (*TextTable).RowToLinesOfWidthStrings
 //@   tags C04,C03,C09
 //@   requires 0 <= columnCount && columnCount <= 1048576 && cellsChains(cells)
-//@   assigns new(decoration.WidthString), new([]decoration.WidthString)
+//@   assigns new(decoration.WidthString), new([]decoration.WidthString), ghost ttLineWit
+//@   ensures [one-line-per-text-line-of-the-tallest-cell] len(result) == 1 || (0 <= ttLineWit && ttLineWit < len(cells) && ttLineWit < columnCount && len(result) == lwLen(&cells[ttLineWit])) @C03
+//@   call CellPropertyExtractLinesWidths#1 after ghost ttLineWit = (len(res0) > lineCount ? i : ttLineWit)
 //@   ensures [at-least-one-line] len(result) >= 1 && fresh(result) @C03
 //@   ensures [every-line-has-a-slot-per-column] forall l int :: {result[l]} 0 <= l && l < len(result) ==> len(result[l]) == columnCount && fresh(result[l]) @C04
 //@   ensures [tallest-cell-fits] forall c int :: {cells[c]} 0 <= c && c < len(cells) && c < columnCount ==> lwLen(&cells[c]) <= len(result) @C03
@@ -70,12 +75,14 @@ package texttable
 //@   ensures [missing-cell-blank] forall l int, c int :: {result[l][c]} 0 <= l && l < len(result) && len(cells) <= c && c < columnCount ==> result[l][c].S == "" && result[l][c].W == 0 @C04
 //@   loop#1 invariant 0 <= i && i <= max && max == min(len(cells), columnCount) && len(columns) == max && fresh(columns) && lineCount >= 1 && lineCount <= 1099511627776
 //@   loop#1 invariant forall c int :: {columns[c]} 0 <= c && c < i ==> len(columns[c]) == lwLen(&cells[c]) && len(columns[c]) <= lineCount && (lwLen(&cells[c]) > 0 ==> columns[c] === linesOf(&cells[c]))
+//@   loop#1 invariant lineCount == 1 || (0 <= ttLineWit && ttLineWit < i && lineCount == lwLen(&cells[ttLineWit]))
 //@   loop#1 decreases max - i
 //@   loop#2 invariant 0 <= l && l <= lineCount && len(lines) == lineCount && fresh(lines) && max == min(len(cells), columnCount) && len(columns) == max && lineCount >= 1 && lineCount <= 1099511627776
 //@   loop#2 invariant forall c int :: {columns[c]} 0 <= c && c < max ==> len(columns[c]) == lwLen(&cells[c]) && len(columns[c]) <= lineCount && (lwLen(&cells[c]) > 0 ==> columns[c] === linesOf(&cells[c]))
 //@   loop#2 invariant forall k int :: {lines[k]} 0 <= k && k < l ==> len(lines[k]) == columnCount && fresh(lines[k])
 //@   loop#2 invariant forall k int, c int :: {lines[k][c]} 0 <= k && k < l && 0 <= c && c < max ==> (k < lwLen(&cells[c]) ? (lines[k][c].S == linesOf(&cells[c])[k].S && lines[k][c].W == linesOf(&cells[c])[k].W) : (lines[k][c].S == "" && lines[k][c].W == 0))
 //@   loop#2 invariant forall k int, c int :: {lines[k][c]} 0 <= k && k < l && max <= c && c < columnCount ==> lines[k][c].S == "" && lines[k][c].W == 0
+//@   loop#2 invariant lineCount == 1 || (0 <= ttLineWit && ttLineWit < max && lineCount == lwLen(&cells[ttLineWit]))
 //@   loop#2 decreases lineCount - l
 //@   loop#3 invariant 0 <= c && c <= max && 0 <= l && l < lineCount && len(lines) == lineCount && fresh(lines) && max == min(len(cells), columnCount) && len(columns) == max && lineCount >= 1 && lineCount <= 1099511627776 && len(lines[l]) == columnCount && fresh(lines[l])
 //@   loop#3 invariant forall c int :: {columns[c]} 0 <= c && c < max ==> len(columns[c]) == lwLen(&cells[c]) && len(columns[c]) <= lineCount && (lwLen(&cells[c]) > 0 ==> columns[c] === linesOf(&cells[c]))
@@ -84,6 +91,7 @@ package texttable
 //@   loop#3 invariant forall k int, j int :: {lines[k][j]} 0 <= k && k < l && max <= j && j < columnCount ==> lines[k][j].S == "" && lines[k][j].W == 0
 //@   loop#3 invariant forall j int :: {lines[l][j]} 0 <= j && j < c ==> (l < lwLen(&cells[j]) ? (lines[l][j].S == linesOf(&cells[j])[l].S && lines[l][j].W == linesOf(&cells[j])[l].W) : (lines[l][j].S == "" && lines[l][j].W == 0))
 //@   loop#3 invariant forall j int :: {lines[l][j]} max <= j && j < columnCount ==> lines[l][j].S == "" && lines[l][j].W == 0
+//@   loop#3 invariant lineCount == 1 || (0 <= ttLineWit && ttLineWit < max && lineCount == lwLen(&cells[ttLineWit]))
 //@   loop#3 decreases max - c
 
 //@ -- alignOf(t, j): the alignment stored on column handle j (0 = all-columns default); effAlign: own setting, else default
@@ -105,7 +113,7 @@ package texttable
 //@ func (*TextTable).RenderTo
 //@   tags C03,C04,C15,C17,C09,C14
 //@   requires t != nil && tbl(t.Table) && ttab(t).nColumns <= 1048576
-//@   assigns heap[tabular.propertyImpl.properties], new(tabular.valueProperty), ttab(t).ErrorContainer.errors_, elemscap(ttab(t).ErrorContainer.errors_), ghost cbErrN, ghost cbErrLog, ghost cbCallN, ghost cbCallSelf, ghost cbCallOwner, ghost stage, ghost fires, ghost stageR, ghost firesR, ghost stageT, ghost stageC, ghost Wn, ghost Wchunk, ghost Wfailed, ghost ttRules, ghost ttContent, ghost ttWit, new(int), new(string), new(align.Alignment), new(decoration.WidthString), new([]decoration.WidthString), new(decoration.emitter), new(tabular.Cell)
+//@   assigns heap[tabular.propertyImpl.properties], new(tabular.valueProperty), ttab(t).ErrorContainer.errors_, elemscap(ttab(t).ErrorContainer.errors_), ghost cbErrN, ghost cbErrLog, ghost cbCallN, ghost cbCallSelf, ghost cbCallOwner, ghost stage, ghost fires, ghost stageR, ghost firesR, ghost stageT, ghost stageC, ghost Wn, ghost Wchunk, ghost Wfailed, ghost ttRules, ghost ttContent, ghost ttWit, ghost ttLineWit, new(int), new(string), new(align.Alignment), new(decoration.WidthString), new([]decoration.WidthString), new(decoration.emitter), new(tabular.Cell)
 //@   requires [writer-ok] !Wfailed
 //@   call InvokeRenderCallbacks after assume alignsValid(ttab(t)) && measuredOK()
 //@   ensures [error-list-grows-only-by-callback-errors] cbErrN >= old(cbErrN) && len(ttab(t).ErrorContainer.errors_) == old(len(ttab(t).ErrorContainer.errors_)) + (cbErrN - old(cbErrN)) @C14,C11
